@@ -73,7 +73,8 @@ where
 
         // N.B. `self.iter.end` is lowered by `next_back`, tail starts at range end.
         let elements_left = self.original_len - self.end;
-        let replace_end = self.start + self.replace_with.len();
+        let replace_len = self.replace_with.len();
+        let replace_end = self.start + replace_len;
         let new_len = replace_end + elements_left;
 
         // 0. capacity.
@@ -103,23 +104,37 @@ where
         }
 
         // 3. move replace_with in
+        // `ExactSizeIterator::len` is not trusted: never write more than reserved.
+        let mut written = 0;
         unsafe{
             let type_id = element_typeid(any_vec_ptr);
             let element_size = element_size(any_vec_ptr);
             let mut ptr = element_mut_ptr_at(any_vec_ptr, self.start);
-            while let Some(replace_element) = self.replace_with.next() {
+            while written < replace_len {
+                let Some(replace_element) = self.replace_with.next() else { break };
                 assert_types_equal(type_id, replace_element.value_typeid());
                 replace_element.move_into::<
                     <ReplaceIter::Item as AnyValueSizeless>::Type
                 >(ptr, element_size);
                 ptr = ptr.add(element_size);
+                written += 1;
+            }
+
+            // Fewer elements than reported - close the gap.
+            if written < replace_len {
+                move_elements_at(
+                    any_vec_ptr,
+                    replace_end,
+                    self.start + written,
+                    elements_left
+                );
             }
         }
 
         // 4. restore len
         {
             let any_vec_raw = unsafe{any_vec_ptr.any_vec_raw_mut()};
-            any_vec_raw.len = new_len;
+            any_vec_raw.len = self.start + written + elements_left;
         }
     }
 }
